@@ -115,7 +115,7 @@ CHECKS = {
 # clauses added after the independently seeded round (DESIGN 4c); appended to the claim text
 ADDED = {
     "C10": " Also: (e) no where(mask, a, f(x)) in the differentiated forward maps hides an operation with a singular derivative behind the mask (nan gradients at the masked point); the ladder evaluator reads abs / real / imag of scalars, so a gradient written with |tanh r| instead of tanh r is decided.",
-    "C02": " Also: (f) axis typing of the detector matrix: a size read from axis k of a matrix parameter bounds only indices that run along axis k of that matrix (number of alternatives of a draw whose probability vector is a column, indices from range / itertools.product into a column, bound tests of direct indices), followed through helper return values - exact and sampled treatment of imperfect detectors agree. Also: (d) no random draw is stored under a data-dependent key and reused for several sample components.",
+    "C02": " Also: (f) axis typing of the detector matrix: a size read from axis k of a matrix parameter bounds only indices that run along axis k of that matrix (number of alternatives of a draw whose probability vector is a column, indices from range / itertools.product into a column, bound tests of direct indices), followed through helper return values - exact and sampled treatment of imperfect detectors agree. Also: (d) no random draw is stored under a data-dependent key and reused for several sample components. Also: (g) the position-eigenfunction weights with which the multi-mode pure-Fock homodyne sampler conditions the next mode carry the normaliser of the Hermite index (H_n(x) / sqrt(2^n n!)); known finding 32 on the current tree.",
     "C05": " Also: (d) mode tuples live in two index spaces (positions among the active modes vs original mode labels); each call from a simulation step into a state method hands the space the parameter is used in there (inferred from its combination with the post-selected modes / its use as an index into the active modes), converting with map_to_original_modes; (e) a positional cursor carried from one loop iteration to the next is advanced on every path through the loop body (no `continue` before its update); (f) only the state's initialiser and _apply_matrix_on_modes assign the effective interferometer (simulation steps never write it directly, because they hold positions among the active modes).",
     "C03": " Also: (d) every branch state handed on by a step reachable with shots=None is the normalised projection (constructor with a normalization argument or normalize() on the way), which is what makes the simulator's multiplication of child by parent weights the chain rule. Also: (c) in every `shots is None` arm the weights handed on are the iterated probabilities themselves (times the parent branch's weight), not a renormalised or rescaled value.",
     "C04": " Also: the absolute-threshold rule covers the numba hafnian kernels (the guard of an identity-rescaling arm is the accepted idiom); an exact zero test of a sum is applied to summands that cannot cancel. Also: no `<<` is evaluated in fewer bits than the stated multiplicity range needs with a run-time count; an in-place rescaling helper returns on every path the factor it applied on that path; the native kernels branch on computed floating values only through exact tests (no absolute tolerance). Also: (f) a scale factor computed as a norm of the input (sum of absolute values) is never used as a divisor - in the same function, in a callee that receives it, or after being returned - without a dominating zero test (the all-zero matrix is a legal input); (g) an entry of a kernel's input array or of a copy of it is only updated from its old value, never overwritten.",
